@@ -214,6 +214,13 @@ func (sc *SpecScope) eval(e ast.Expr) Val {
 		if t == nil || base.K != KIfc {
 			return sc.fail("bad type assertion %s", nodeStr(e))
 		}
+		if base.Inner != nil {
+			if types.Identical(base.T, t) {
+				return *base.Inner
+			}
+			// unreachable when guarded by is(...): any value of the right shape will do
+			return c.w.zero(t)
+		}
 		return c.payload(base.S, t)
 	case *ast.CompositeLit:
 		tn := typeExprName(x.Type)
@@ -418,6 +425,18 @@ func (sc *SpecScope) call(x *ast.CallExpr) Val {
 		if t == nil || v.K != KIfc {
 			return sc.fail("bad is(%s)", tn)
 		}
+		if v.Inner != nil {
+			if it, ok := t.Underlying().(*types.Interface); ok {
+				if types.Implements(v.T, it) {
+					return vBool("true")
+				}
+				return vBool("false")
+			}
+			if types.Identical(v.T, t) {
+				return vBool("true")
+			}
+			return vBool("false")
+		}
 		return vBool(c.tagTest(v.S, t))
 	case "isnil":
 		v := sc.eval(arg(0))
@@ -482,14 +501,34 @@ func (sc *SpecScope) call(x *ast.CallExpr) Val {
 	// spec function
 	if sf, ok := c.eng.contracts.SpecFuncs[name]; ok {
 		var args []string
+		var argVals []Val
+		static := false
 		for i := range x.Args {
 			v := sc.eval(x.Args[i])
-			if i < len(sf.PTypes) && c.specSort(sf.PTypes[i]) == "Ifc" && v.K != KIfc && v.T != nil {
-				v = c.box(v, v.T)
+			if i < len(sf.PTypes) && c.specSort(sf.PTypes[i]) == "Ifc" && (v.K != KIfc || v.Inner != nil) && v.T != nil {
+				if v.Inner == nil {
+					inner := v
+					v = Val{K: KIfc, S: "nilIfc", T: inner.T, Inner: &inner}
+				}
+				static = true
 			}
+			argVals = append(argVals, v)
 			for _, s := range v.flat() {
 				args = append(args, s.S)
 			}
+		}
+		if static && sf.Body != nil {
+			// a concrete value passed where the spec function takes an interface: expand the body
+			// in place with the dynamic type known statically
+			n := &SpecScope{c: c, cur: sc.cur, old: sc.old, vars: map[string]Val{}, pure: true, bound: sc.bound}
+			for i, p := range sf.Params {
+				if i < len(argVals) {
+					n.vars[p] = argVals[i]
+				}
+			}
+			r := n.eval(sf.Body)
+			sc.err = append(sc.err, n.err...)
+			return r
 		}
 		sym, ret := c.useSpecFunc(sf)
 		if len(args) == 0 {
